@@ -93,3 +93,19 @@ Proof.
   unfold mem_decode_key, mem_encode_key. pose proof (decode_encode_bytes k []) as H.
   rewrite app_nil_r in H. now rewrite H.
 Qed.
+
+(* memcomparable key codec: order-preserving, injective, and whatever it decodes is an encoded key followed by
+   ignored bytes (decodeKey drops the leftover: it is a decoder of key PREFIXES, stated as such) *)
+Lemma mem_encode_key_order a b : lex_cmp (mem_encode_key a) (mem_encode_key b) = lex_cmp a b.
+Proof. unfold mem_encode_key. apply encode_bytes_order. Qed.
+Lemma mem_encode_key_inj a b : mem_encode_key a = mem_encode_key b -> a = b.
+Proof.
+  intros H. pose proof (mem_decode_encode_key a) as Ha. rewrite H, mem_decode_encode_key in Ha. now inversion Ha.
+Qed.
+Lemma mem_decode_key_prefix b k : mem_decode_key b = Some k -> exists rest, b = mem_encode_key k ++ rest.
+Proof.
+  unfold mem_decode_key, mem_encode_key. destruct (decode_bytes b) as [[rest d]|] eqn:E; [|discriminate].
+  intros H. inversion H; subst d. exists rest. apply decode_bytes_strict. exact E.
+Qed.
+Lemma mem_decode_key_ignores_suffix k rest : mem_decode_key (mem_encode_key k ++ rest) = Some k.
+Proof. unfold mem_decode_key, mem_encode_key. now rewrite decode_encode_bytes. Qed.
